@@ -44,7 +44,7 @@ def verify_target(job):
             out["seconds"] = time.time() - t0
             return out
         if not target.startswith("lemma:"):
-            modname, qual = target.split(":")
+            modname, qual = target.split("#")[0].split(":")
             out["source"] = v.module(modname).function_source(qual)
         out["trivial"] = ex.trivial
         timeout = 20000 if tier == "quick" else 120000
